@@ -1097,13 +1097,44 @@ def c02_structure(units, R):
     u = units['cJSON.c']
     fn = u.fn('parse_value')
     cfg = fn.cfg()
-    def src_ok(base):
-        # the byte at the buffer cursor: (B->content + B->offset)[0]
-        b = strip_casts(base)
+    def is_cursor(b):
+        b = strip_casts(b)
         return b.get('k') == 'bin' and b['op'] == '+' and is_mem(b['l'], 'content') and is_mem(b['r'], 'offset')
+    # locals that only ever hold the buffer cursor (const unsigned char *text = buffer_at_offset(input_buffer)); a read
+    # through one counts as a read at the cursor as long as no store to ->offset lies between the assignment and the read
+    alias_nodes = {}
+    for d in fn.locals():
+        srcs = [d['init']] if 'init' in d and not is_null_const(d['init']) else []
+        srcs += [a['r'] for a in assignments(fn) if is_ref(a['l']) and strip_casts(a['l'])['d'] == d['d'] and not is_null_const(a['r'])]
+        if srcs and all(is_cursor(x) for x in srcs):
+            defs = set()
+            for n in cfg.nodes:
+                if (n.kind == 'decl' and n.decl['d'] == d['d'] and 'init' in n.decl and not is_null_const(n.decl['init'])) or \
+                        (n.kind == 'stmt' and strip_casts(n.expr).get('k') == 'bin' and strip_casts(n.expr)['op'] == '=' and
+                         is_ref(strip_casts(n.expr)['l']) and strip_casts(strip_casts(n.expr)['l'])['d'] == d['d']):
+                    defs.add(n.id)
+            offset_stores = set()
+            for n in cfg.nodes:
+                for ev in node_effects(n):
+                    if ev.kind in ('store', 'incdec') and is_mem(ev.lhs, 'offset'):
+                        offset_stores.add(n.id)
+            stale = set()
+            for o in offset_stores:
+                if any(o in cfg.reachable(df, stop=defs - {df}) for df in defs):
+                    stale |= cfg.reachable(o, stop=defs)
+            alias_nodes[d['d']] = stale
+    cur_node = {'id': None}
+
+    def src_ok(base):
+        # the byte at the buffer cursor: (B->content + B->offset)[0], or the same through a local holding the cursor
+        b = strip_casts(base)
+        if is_cursor(b):
+            return True
+        return b.get('k') == 'ref' and b.get('d') in alias_nodes and cur_node['id'] not in alias_nodes[b['d']]
     reach = {}
 
     def visit(node, B, env):
+        cur_node['id'] = node.id
         root = node.expr
         if root is None:
             return
@@ -1303,6 +1334,21 @@ def _byte_explore(u, fn, src_ok, visit, reset_heads=True):
                     if not keep:
                         continue
                     B2 = frozenset(keep)
+            elif label is not None and label[0] in ('case', 'default') and node.kind == 'switch':
+                vals = [label[2]] if label[0] == 'case' else list(label[2])
+                keep = set()
+                dep = True
+                for b in B:
+                    v = _evalb(label[1], b, env, u, src_ok)
+                    if v is None:
+                        dep = False
+                        break
+                    if (v in vals) == (label[0] == 'case'):
+                        keep.add(b)
+                if dep:
+                    if not keep:
+                        continue
+                    B2 = frozenset(keep)
             work.append((y, B2, envt2))
 
 
@@ -1384,6 +1430,21 @@ def tab21(units, R):
                         dep = False
                         break
                     if bool(v) == (label[0] == 'T'):
+                        keep.add(b)
+                if dep:
+                    if not keep:
+                        continue
+                    B2 = frozenset(keep)
+            elif label is not None and label[0] in ('case', 'default') and node.kind == 'switch':
+                vals = [label[2]] if label[0] == 'case' else list(label[2])
+                keep = set()
+                dep = True
+                for b in B:
+                    v = _evalb(label[1], b, env, u, src_ok)
+                    if v is None:
+                        dep = False
+                        break
+                    if (v in vals) == (label[0] == 'case'):
                         keep.add(b)
                 if dep:
                     if not keep:
